@@ -46,13 +46,13 @@ impl FixtureDatabase {
 @tags C20 C04
 @ret r
 @replace 1 `&d.file_path == def_path` => `d.file_path == *def_path`
-@closure 1 |lines: &HashMap<usize, FixtureDefinition>| -> (o: Option<&FixtureDefinition>)
+@closure and_then:1 |lines: &HashMap<usize, FixtureDefinition>| -> (o: Option<&FixtureDefinition>)
     ensures match o { Some(v) => lines.m().contains_key(usage.line) && *v == lines.m()[usage.line], None => !lines.m().contains_key(usage.line) }
-@closure 2 |def: &FixtureDefinition| -> (b: bool) ensures b == (def.name@ == usage.name@)
-@closure 3 |def_path: &PathBuf| -> (o: Option<FixtureDefinition>) ensures find_post_m(self.definitions.m(), usage.name@, pbv(def_path), o)
-@closure 4 |defs: Ref<'_, String, Vec<FixtureDefinition>>| -> (o: Option<FixtureDefinition>) ensures find_post(defs.r@.as_ref(), pbv(def_path), o)
-@closure 5 |d: &&FixtureDefinition| -> (b: bool) ensures b == (pbv(&d.file_path) == pbv(def_path))
-@closure 6 |d: &FixtureDefinition| -> (p: PathBuf) ensures pbv(&p) == pbv(&d.file_path)
+@closure is_some_and:1 |def: &FixtureDefinition| -> (b: bool) ensures b == (def.name@ == usage.name@)
+@closure and_then:2 |def_path: &PathBuf| -> (o: Option<FixtureDefinition>) ensures find_post_m(self.definitions.m(), usage.name@, pbv(def_path), o)
+@closure and_then:3 |defs: Ref<'_, String, Vec<FixtureDefinition>>| -> (o: Option<FixtureDefinition>) ensures find_post(defs.r@.as_ref(), pbv(def_path), o)
+@closure find:1 |d: &&FixtureDefinition| -> (b: bool) ensures b == (pbv(&d.file_path) == pbv(def_path))
+@closure map:1 |d: &FixtureDefinition| -> (p: PathBuf) ensures pbv(&p) == pbv(&d.file_path)
 @sig
     requires unique_at_line(self.defs()), total_usages(self.uses()) <= usize::MAX,
     ensures counts_post(r.m(), self.defs(), self.uses(), self.provf()),
@@ -270,8 +270,8 @@ impl FixtureDatabase {
 @tags C20 C04
 @ret r
 @nocontinue 2
-@closure 1 |a: &(PathBuf, String), b: &(PathBuf, String)| -> (o: core::cmp::Ordering) ensures o == key_cmp((pbv(&a.0), a.1@), (pbv(&b.0), b.1@))
-@closure 2 || -> (o2: core::cmp::Ordering) ensures o2 == str_ord(a.1@, b.1@)
+@closure sort_by:1 |a: &(PathBuf, String), b: &(PathBuf, String)| -> (o: core::cmp::Ordering) ensures o == key_cmp((pbv(&a.0), a.1@), (pbv(&b.0), b.1@))
+@closure then_with:1 || -> (o2: core::cmp::Ordering) ensures o2 == str_ord(a.1@, b.1@)
 @sig
     requires unique_at_line(self.defs()), total_usages(self.uses()) <= usize::MAX,
     ensures unused_post(r@, self.defs(), self.uses(), self.provf()),
